@@ -430,6 +430,45 @@ func (c *checker) wide() int64 {
 	return n
 }
 
+// digits: texts that end in digits at widths that begin with the same digits. Results must
+// depend on the text and the width, not on a string built from both ("user"+"120" and
+// "user1"+"20"), whatever was laid out before; the two passes visit the pairs in different
+// orders.
+func (c *checker) digits() (n int64) {
+	alpha := []string{"a", "1", "2", " "}
+	var inputs []string
+	for l := 1; l <= 4; l++ {
+		total := int64(1)
+		for i := 0; i < l; i++ {
+			total *= int64(len(alpha))
+		}
+		for code := int64(0); code < total; code++ {
+			inputs = append(inputs, build(alpha, code, l))
+		}
+	}
+	widths := []int{1, 2, 3, 11, 12, 13, 21, 22, 111, 112, 121, 212}
+	one := func(in string, w int) {
+		inC, _, _ := oracle.Cells(in)
+		c.wrap(in, inC, w)
+		c.dumbWrap(in, inC, w)
+		c.pad(in, inC, w)
+		c.snip(in, inC, w, 2)
+		c.setLength(in, w)
+		n += 5
+	}
+	for _, w := range widths {
+		for _, in := range inputs {
+			one(in, w)
+		}
+	}
+	for i := len(inputs) - 1; i >= 0; i-- {
+		for j := len(widths) - 1; j >= 0; j-- {
+			one(inputs[i], widths[j])
+		}
+	}
+	return n
+}
+
 func (c *checker) wideOne(in string) (n int64) {
 	inC, _, _ := oracle.Cells(in)
 	for _, w := range []int{79, 80, 81, 159, 160, 161, 200, 255, 256, 257, 1000, 4096, 4097} {
@@ -451,7 +490,7 @@ func main() {
 	r := ev.New("C13", "exploration",
 		"every string of cells over Σ6={a,b,space,newline,styled a,styled space} up to the length bound and over "+
 			"Σ9={a,space,newline,styled a,wide 字,NBSP,e,combining accent,tab} up to a smaller bound, each run through Wrap/DumbWrap/Pad at "+
-			"widths 1..W (W=5 quick, 7 thorough), Indent with 3 prefixes x includeFirst, Snip at widths 1..4 x heights 1..3 x 2 ellipses, SetLength at 1..W; plus every function at 13 widths around 80, 160, 256, 1000 and 4096 on all strings of length <=2 and 8 long strings; "+
+			"widths 1..W (W=5 quick, 7 thorough), Indent with 3 prefixes x includeFirst, Snip at widths 1..4 x heights 1..3 x 2 ellipses, SetLength at 1..W; plus every function at 13 widths around 80, 160, 256, 1000 and 4096 on all strings of length <=2 and 8 long strings; every text of length <=4 over {a,1,2,space} at 12 widths made of the same digits, visited in two orders; "+
 			"distinct_nontrivial counts distinct input strings of length >= 2 that contain whitespace and a visible cell")
 	c := &checker{r}
 	if *ev.FlagReplay != "" {
@@ -461,6 +500,7 @@ func main() {
 		key := ev.LoadReplay(*ev.FlagReplay, &d)
 		c.one(d.Input, 7)
 		c.wideOne(d.Input)
+		c.digits()
 		if r.ViolationCount() > 0 {
 			fmt.Printf("reproduced %s on input %q\n", key, d.Input)
 		}
@@ -497,6 +537,7 @@ func main() {
 	run(sigma6, n6)
 	run(sigma9, n9)
 	r.Eval(c.wide())
+	r.Eval(c.digits())
 	r.Sample(map[string]any{"input": build(sigma6, 123456, n6), "functions": "Wrap,DumbWrap,Pad w=1..7; Indent; Snip; SetLength"})
 	r.Sample(map[string]any{"input": build(sigma9, 4242, n9)})
 	r.Extra["strings"] = nontrivial
